@@ -127,3 +127,31 @@ def run(tier, seed):
                 "'--help', non-public names without -h; distinct = distinct (class, command) pairs; all are non-trivial "
                 "(each exercises a different sub-parser or rejection path)",
     }
+
+
+def replay(v):
+    """Re-runs the handshake (and the one command, if any) of a recorded case."""
+    cap = Capture()
+    loop = fresh_loop()
+    vw.ACTIVE = vw.Recorder(loop)
+    pool = make_pool(v["cls"], 3)
+    with cap.active():
+        s = Session(loop, pool, v.get("width"))
+        loop.run_idle()
+    hs = s.take()
+    out = None
+    if hs != [str(pool).encode() + b"\n"] or s.died():
+        out = {"key": "handshake", "reply": repr(hs)[:200], "session": s.died()}
+    elif v.get("cmd"):
+        nonpub = v["key"].startswith("non-public")
+        with cap.active():
+            s.send(v["cmd"] + ("" if nonpub else " -h"))
+            loop.run_idle()
+        r = [b.decode() for b in s.take()]
+        if nonpub:
+            if len(r) != 1 or r[0].strip() == "ok":
+                out = {"key": v["key"], "reply": r}
+        elif len(r) != 1 or ("usage: " + v["cmd"]) not in r[0]:
+            out = {"key": v["key"], "reply": r}
+    shutdown(loop)
+    return out
